@@ -395,7 +395,7 @@ func TestCheck(t *testing.T) {
 		"Non-trivial = the JSON delta contains a '$' reordering, a removal marker or a complex replacement; distinct = delta shape (structure with scalars collapsed to kinds).")
 	run.Assume("__key values are comparable scalars (strings, ints) as thunder's executor produces them")
 	run.Assume("vlib.MergeTS is a faithful port of client/src/merge.ts (validated against node when VERIF_NODE_CROSSCHECK=1)")
-	n := run.N(30000, 2000000)
+	n := run.N(30000, 12000000)
 	par := 8
 	defer crossCheckPort(run)
 	run.Each(n, par, func(i int) {
